@@ -146,12 +146,15 @@ Params(t) ==
                         <<"default", FALSE, Val(NoneV)>> >>
     [] t = "olvl" -> << <<"n", FALSE, Val(NoneV)>>, <<"plan", FALSE, Val(NoneV)>> >>
     [] t = "cfan" -> << <<"ovs", FALSE, Val(NoneV)>> >>
-    [] t = "otree" -> << <<"kids", FALSE, Val(NoneV)>>, <<"tag", TRUE, Val(IntV(0))>> >>
+    [] t \in {"otree", "dtree"} -> << <<"kids", FALSE, Val(NoneV)>>, <<"tag", TRUE, Val(IntV(0))>> >>
     [] t \in {"ctxget", "ctxtree", "probe", "probetree", "ctxget_sh", "ctxmid", "ctxmid_sh"} -> <<>>
 
 \* definition-time options (the @task(...) decorator) that the probes look at
+\* option names a task exports in its own definition (@task(export_options={...}))
+DefExpNames(t) == IF t = "dtree" THEN {"zone"} ELSE {}
 DefOpts(t) ==
   CASE t \in {"probe", "olvl", "otree"} -> DictV(<< <<StrV("memory"), IntV(1)>>, <<StrV("vcpus"), IntV(1)>> >>)
+    [] t = "dtree" -> DictV(<< <<StrV("memory"), IntV(1)>>, <<StrV("vcpus"), IntV(1)>>, <<StrV("zone"), IntV(5)>> >>)
     [] t = "probetree" -> DictV(<< <<StrV("memory"), IntV(5)>> >>)
     [] OTHER -> EmptyDict
 
@@ -220,11 +223,13 @@ Body(t, a, jopts) ==
                          [Call("olvl", <<Val(IntV(IntOr(a[1]) - 1)), Val(ListV(Tail(a[2].v)))>>)
                             EXCEPT !.opts = items, !.exp = [i \in 1..Len(expo) |-> expo[i][1].v]]>>)
     \* a tree of jobs: siblings and cousins with private and exported options of the same names
-    [] t = "otree" ->
+    [] t \in {"otree", "dtree"} ->
          LET kid(step) ==
                LET plain == DGet(step, StrV("opts")).v
                    expo == DGet(step, StrV("exp")).v
-               IN [Call("otree", <<Val(DGet(step, StrV("kids"))), Val(DGet(step, StrV("tag")))>>)
+                   \* step.d = 1: the child is the task that exports `zone` in its definition
+                   ct == IF DGet(step, StrV("d")) = IntV(1) THEN "dtree" ELSE "otree"
+               IN [Call(ct, <<Val(DGet(step, StrV("kids"))), Val(DGet(step, StrV("tag")))>>)
                      EXCEPT !.opts = [i \in 1..Len(plain) |-> <<Val(plain[i][1]), Val(plain[i][2])>>]
                                      \o [i \in 1..Len(expo) |-> <<Val(expo[i][1]), Val(expo[i][2])>>],
                             !.exp = [i \in 1..Len(expo) |-> expo[i][1].v]]
@@ -353,7 +358,7 @@ EvCall(e, ctx, exp) ==
        LET callOpts == ov
            jopts == ShallowMerge(ShallowMerge(DefOpts(t), exp.opts), callOpts)
            jctx == IF e.ctx.t = "dict" THEN MergeN(<<ctx, e.ctx>>) ELSE ctx
-           names == exp.names \cup {e.exp[i] : i \in 1..Len(e.exp)}
+           names == exp.names \cup DefExpNames(t) \cup {e.exp[i] : i \in 1..Len(e.exp)}
            jexp == [opts |-> DictV(SelectSeq(jopts.v, LAMBDA kv : kv[1].v \in names)), names |-> names,
                     probe |-> jopts]
            npos == Len(e.args)
